@@ -1,6 +1,7 @@
 package props
 
 import (
+	"strings"
 	"go/ast"
 	"go/token"
 	"go/types"
@@ -177,6 +178,16 @@ func c04(c *an.Ctx) {
 					r.AddSites(gc.Len())
 					if gc.Len() == 0 {
 						r.Fail(spec+": gc", c.P.Pos(f.Body.Pos()), "in-use files are no longer queued for deferred removal")
+					} else if rn.Len() == 0 {
+						r.Fail(spec+": in-use file not renamed aside", c.P.Pos(gc.List[0].Node.Pos()), "%s hands an in-use file to the GC under its regular name: if the process dies before the last reader is done, the replaced file is loaded again next to its replacement (every row twice) and no log is left to repair it", f.Name)
+					} else {
+						f.Precedes(r, rn, gc, an.OrderOpt{Success: true, Label: "in use: rename to the temporary name (success) ≺ hand-over to the GC", Unless: []an.AtomPred{an.AtomLike(`^(local\(\w+\)|p\d+)\.Inuse\(\)$`, false)}})
+						for _, s := range rn.List {
+							ce := s.Node.(*ast.CallExpr)
+							if len(ce.Args) != 1 || !strings.HasSuffix(types.ExprString(ce.Args[0]), "tmpFileSuffix") {
+								r.Fail(spec+": rename target", c.P.Pos(ce.Pos()), "the in-use file is renamed to %s, not to its name + tmpFileSuffix (the suffix is what start-up ignores and cleans)", types.ExprString(ce.Args[0]))
+							}
+						}
 					}
 				}
 			}
